@@ -110,6 +110,18 @@ def run(c, facts, tier):
         for n in find_all(fn.body, lambda n: n.get("k") == "path" and n["segs"][-1] == "DefaultPrint" and len(n["segs"]) >= 2, skip_pats=True):
             sites.append(fn.key)
     patsites = []
-    c.ob("C09.default", "crate", "DefaultPrint is constructed only by the wrap", sorted(set(sites)) == [comp.key], "expression-position uses of Action::DefaultPrint: %s" % sorted(set(sites)))
+    # the wrap may live in compile() or in a private helper that only compile() (transitively) calls
+    allowed = {comp.key}
+    grew = True
+    while grew:
+        grew = False
+        for k_, fn_ in facts.fns.items():
+            if k_ in allowed or fn_.test or fn_.node.get("vis") == "pub":
+                continue
+            callers = [g_.key for g_ in facts.nontest_fns() if g_.key != k_ and find_all(g_.body, lambda n: (n.get("k") == "mcall" and n["m"] == fn_.name) or (n.get("k") == "call" and n["f"]["k"] == "path" and n["f"]["segs"][-1] == fn_.name))]
+            if callers and all(c_ in allowed for c_ in callers):
+                allowed.add(k_)
+                grew = True
+    c.ob("C09.default", "crate", "DefaultPrint is constructed only by the wrap", bool(sites) and set(sites) <= allowed, "expression-position uses of Action::DefaultPrint: %s; compile() and the private helpers only it calls: %s" % (sorted(set(sites)), sorted(allowed)))
     fx = {"k": "binary", "op": "&&", "lhs": {"k": "lit", "t": "bool", "v": True}, "rhs": {"k": "lit", "t": "bool", "v": True}}
     c.control("C09.detect", len(treeq.or_operands(fx)) == 1, "fixture `e1.action() && e2.action()` is rejected")
